@@ -1190,6 +1190,35 @@ pub fn generate(prop: &str, out: &mut Out, thorough: bool, seed: u64) -> bool {
             let p = Plan { enc: e, bom, sink16, repl, stream, cuts, caps, skip };
             emit(out, &p, &props);
         }
+        // exact-fit regime: the destination of the first call ends exactly after the k-th character of the
+        // output (for several k), the rest of the input follows in the same source buffer: the classic
+        // boundary of every space check (`pos + n <= len` versus `<`), on both sinks
+        let fits = if thorough { 60 } else { 10 };
+        for i in 0..fits {
+            let stream = gen_stream(&mut rng, e, if i % 3 == 2 { 40 } else { 10 });
+            if stream.is_empty() {
+                continue;
+            }
+            let (text, _) = e.decode_without_bom_handling(&stream);
+            let sink16 = i % 2 == 0;
+            let mut cum = Vec::new();
+            let mut acc = 0usize;
+            for ch in text.chars() {
+                acc += if sink16 { ch.len_utf16() } else { ch.len_utf8() };
+                cum.push(acc);
+            }
+            let ks: Vec<usize> = if cum.len() <= 6 { (0..cum.len()).collect() } else { (0..6).map(|_| rng.below(cum.len())).collect() };
+            for k in ks {
+                let c0 = cum[k].max(min_cap(sink16));
+                for repl in [false, true] {
+                    if prop == "C07" {
+                        continue;
+                    }
+                    let p = Plan { enc: e, bom: Bom::Off, sink16, repl, stream: stream.clone(), cuts: vec![stream.len()], caps: vec![c0, 1000, 1000, 1000, 1000, 1000, 1000, 1000], skip: false };
+                    emit(out, &p, &props);
+                }
+            }
+        }
         // bulk / fast-path regime: an ASCII run whose length sits around a stride boundary, then one
         // non-ASCII character (valid or not), then a short tail; capacities around the run length so that
         // the destination runs out inside the run, right before / inside / right after the character
